@@ -127,8 +127,9 @@ SPECS = {
     "YAEP_NEGATIVE_TERM_CODE": [["-1*L[&out0(read_terminal)] + -1 >= 0"]],
     "YAEP_REPEATED_TERM_DECL": [["symb_find_by_repr(read_terminal()) != 0"]],
     "YAEP_REPEATED_TERM_CODE": [["symb_find_by_code(L[&out0(read_terminal)]) != 0"],
-                                ["-1 != L[(L[@sterms.vlo_t.vlo_start])[i].sterm.code]", "-1 != L[(prev).sterm.code]",
-                                 "L[(L[@sterms.vlo_t.vlo_start])[i].sterm.code] != L[(prev).sterm.code]"]],
+                                # the element looked at is spelled arr[i] or through the running pointer `term'
+                                ["re:^-1 != L\\[(?:\\(L\\[@sterms\\.vlo_t\\.vlo_start\\]\\)\\[i\\]|\\(term\\))\\.sterm\\.code\\]$", "-1 != L[(prev).sterm.code]",
+                                 "re:^(?:L\\[\\(L\\[@sterms\\.vlo_t\\.vlo_start\\]\\)\\[i\\]\\.sterm\\.code\\] != L\\[\\(prev\\)\\.sterm\\.code\\]|L\\[\\(prev\\)\\.sterm\\.code\\] != L\\[\\(term\\)\\.sterm\\.code\\])$"]],
     "YAEP_FIXED_NAME_USAGE": [['symb_find_by_repr("error") != 0'],
                               ["L[(L[@grammar]).grammar.axiom] != 0"],
                               ["L[(L[@grammar]).grammar.end_marker] != 0"],
